@@ -40,6 +40,8 @@ type Ob struct {
 func (o *Ob) Key() string { return o.Rule + " @ " + o.Construct }
 
 type Ctx struct {
+	renamed     map[string]*load.FuncInfo
+	renamedBack map[*load.FuncInfo]string
 	// skipWrap: the helper rules are run as a clause of another property, without the int32 overflow rule (a C01/C15 matter)
 	skipWrap bool
 	P     *load.Prog
@@ -129,6 +131,13 @@ func (c *Ctx) Fail(format string, args ...any) {
 // Func resolves an anchor or records a checker failure.
 func (c *Ctx) Func(pkg, name string) *load.FuncInfo {
 	fi := c.P.Func(pkg, name)
+	if fi == nil {
+		// an unexported function renamed since the pinned commit (anchors.go)
+		if r := c.renames()[pkg+"|"+name]; r != nil {
+			c.Notes = append(c.Notes, "anchor "+name+" resolved to the renamed function "+scopeShortName(r))
+			return r
+		}
+	}
 	if fi == nil {
 		c.Fail("anchor %s.%s does not resolve", pkg, name)
 	}
@@ -227,6 +236,7 @@ type Result struct {
 func RunProperty(c *Ctx, prop *Property, findings []Finding, seed int, evidenceDir string, extra map[string]any) *Result {
 	t0 := time.Now()
 	c.Prop = prop.ID
+	activeCtx = c
 	func() {
 		defer func() {
 			if r := recover(); r != nil {
@@ -383,9 +393,37 @@ func callsIn(n ast.Node, deep bool) []*ast.CallExpr {
 
 func calleeName(info *types.Info, call *ast.CallExpr) string {
 	if fn := gf.StaticCallee(info, call); fn != nil {
-		return fn.FullName()
+		return pinnedFullName(fn)
 	}
 	return ""
+}
+
+// activeCtx is the context of the property being evaluated (rules run one at a time); the name helpers
+// use it to report a renamed unexported function under the name it had at the pinned commit, which is
+// the name the rules and their tables know.
+var activeCtx *Ctx
+
+func pinnedName(fn *types.Func) string {
+	if activeCtx != nil {
+		if fi := activeCtx.P.FuncInfoOf(fn); fi != nil {
+			activeCtx.renames()
+			if old, ok := activeCtx.renamedBack[fi]; ok {
+				if i := strings.LastIndex(old, "."); i >= 0 {
+					return old[i+1:]
+				}
+				return old
+			}
+		}
+	}
+	return fn.Name()
+}
+
+func pinnedFullName(fn *types.Func) string {
+	full := fn.FullName()
+	if n := pinnedName(fn); n != fn.Name() {
+		return strings.TrimSuffix(full, fn.Name()) + n
+	}
+	return full
 }
 
 func exprString(fset *token.FileSet, e ast.Node) string {
